@@ -181,4 +181,94 @@ theorem cts_cbc_dec_spec (h : Implements c k) (iv : List Nat) (hivl : iv.length 
     rw [ein, cts_cbc_dec_general h iv hivl iv0 hiv0 hd hhd cn hcn b hb (by omega) hbl]
     simp [join]
 
+/-! ### the ciphertexts are byte strings; the Spec inverses invert the Spec maps -/
+
+theorem bytes_join : ∀ (L : List (List Nat)), (∀ x ∈ L, Bytes x) → Bytes (join L)
+  | [], _ => Bytes.nil
+  | a :: L, hL => by
+    show Bytes (a ++ join L)
+    exact (hL a (by simp)).append (bytes_join L (fun x hx => hL x (List.mem_cons_of_mem _ hx)))
+
+theorem ecbCts_bytes (h : Implements c k) (M : List Nat) (hM : Bytes M) (hlen : c.len ≤ M.length) :
+    Bytes (Spec.Mode.ecbCts k M) := by
+  have e := cts_ecb_enc_spec h M hM hlen
+  obtain ⟨Bs, b, hne, hB, hb, hbl, rfl⟩ := split_message c.len h.len_pos M hM hlen
+  by_cases hb0 : b.length = 0
+  · have : b = [] := List.length_eq_zero_iff.1 hb0
+    subst this
+    rw [List.append_nil] at e ⊢
+    rw [cts_ecb_enc_full h Bs hne hB] at e
+    injection e with e
+    rw [← e]
+    apply bytes_join
+    intro x hx; obtain ⟨a, ha, rfl⟩ := List.mem_map.1 hx; exact (h.E_block a (hB a ha)).2
+  · obtain ⟨P', pl, rfl⟩ : ∃ P' pl, Bs = P' ++ [pl] := ⟨Bs.dropLast, Bs.getLast hne, (List.dropLast_concat_getLast hne).symm⟩
+    have hP' : ∀ x ∈ P', IsBlock c.len x := fun x hx => hB x (List.mem_append_left _ hx)
+    have hpl : IsBlock c.len pl := hB pl (by simp)
+    rw [cts_ecb_enc_partial h P' hP' pl hpl b hb (by omega) hbl] at e
+    injection e with e
+    rw [← e]
+    apply bytes_join
+    intro x hx
+    rcases List.mem_append.1 hx with hx | hx
+    · obtain ⟨a, ha, rfl⟩ := List.mem_map.1 hx; exact (h.E_block a (hP' a ha)).2
+    · have hcl := h.E_block pl hpl
+      simp at hx; rcases hx with rfl | rfl
+      · exact (h.E_block _ (steal_isBlock hb hbl hcl)).2
+      · exact hcl.2.take _
+
+theorem cbcCts_bytes (h : Implements c k) (iv : List Nat) (hiv : IsBlock c.len iv) (M : List Nat) (hM : Bytes M)
+    (hlen : c.len ≤ M.length) : Bytes (Spec.Mode.cbcCts k iv M) := by
+  have e := cts_cbc_enc_spec h iv hiv M hM hlen
+  obtain ⟨Bs, b, hne, hB, hb, hbl, rfl⟩ := split_message c.len h.len_pos M hM hlen
+  by_cases hb0 : b.length = 0
+  · have : b = [] := List.length_eq_zero_iff.1 hb0
+    subst this
+    rw [List.append_nil] at e ⊢
+    rw [cts_cbc_enc_full h iv hiv Bs hne hB] at e
+    injection e with e
+    rw [← e]
+    apply bytes_join
+    intro x hx; rcases List.mem_cons.1 hx with rfl | hx
+    · exact hiv.2
+    · exact ((cbcChain_eq h Bs iv hiv hB).2 x hx).2
+  · obtain ⟨P', pl, rfl⟩ : ∃ P' pl, Bs = P' ++ [pl] := ⟨Bs.dropLast, Bs.getLast hne, (List.dropLast_concat_getLast hne).symm⟩
+    have hP' : ∀ x ∈ P', IsBlock c.len x := fun x hx => hB x (List.mem_append_left _ hx)
+    have hpl : IsBlock c.len pl := hB pl (by simp)
+    have hpv := csPrev_isBlock h iv hiv P' hP'
+    have hcl : IsBlock c.len (csCl k iv P' pl) := h.E_block _ (xor_isBlock hpl hpv)
+    have hy : IsBlock c.len (csY k c.len iv P' pl b) := h.E_block _ (xor_isBlock (padded_isBlock hb hbl) hcl)
+    rw [cts_cbc_enc_partial h iv hiv P' hP' pl hpl b hb (by omega) hbl] at e
+    injection e with e
+    rw [← e]
+    apply bytes_join
+    intro x hx
+    rcases List.mem_append.1 hx with hx | hx
+    · rcases List.mem_cons.1 hx with rfl | hx
+      · exact hiv.2
+      · exact ((cbcChain_eq h P' iv hiv hP').2 x hx).2
+    · simp at hx; rcases hx with rfl | rfl
+      · exact hy.2
+      · exact hcl.2.take _
+
+/-- ECB-CTS: the Spec inverse undoes the Spec map (for every cipher pair that some model cipher implements) -/
+theorem ecbCtsInv_ecbCts (h : Implements c k) (M : List Nat) (hM : Bytes M) (hlen : c.len ≤ M.length) :
+    Spec.Mode.ecbCtsInv k (Spec.Mode.ecbCts k M) = M := by
+  obtain ⟨C, he, hl, hd⟩ := cts_ecb_all h M hM hlen
+  rw [cts_ecb_enc_spec h M hM hlen] at he
+  injection he with he
+  subst he
+  rw [cts_ecb_dec_spec h _ (ecbCts_bytes h M hM hlen) (by omega)] at hd
+  injection hd
+
+/-- CBC-CS2 with the IV in front: the Spec inverse undoes the Spec map -/
+theorem cbcCtsInv_cbcCts (h : Implements c k) (iv : List Nat) (hiv : IsBlock c.len iv) (M : List Nat) (hM : Bytes M)
+    (hlen : c.len ≤ M.length) : Spec.Mode.cbcCtsInv k (Spec.Mode.cbcCts k iv M) = M := by
+  obtain ⟨C, he, hl, _, hd⟩ := cts_cbc_all h iv hiv M hM hlen
+  rw [cts_cbc_enc_spec h iv hiv M hM hlen] at he
+  injection he with he
+  subst he
+  rw [cts_cbc_dec_spec h iv hiv.1 _ (cbcCts_bytes h iv hiv M hM hlen) (by omega)] at hd
+  injection hd
+
 end Proofs.Lemmas.ModeL
